@@ -52,6 +52,7 @@ func main() {
 	os.RemoveAll(filepath.Join(*out, "gen"))
 	os.MkdirAll(filepath.Join(*out, "gen"), 0o755)
 	replace := map[string]string{}
+	override := map[string]string{} // repo file -> replacement source (still subject to the transforms)
 	files := map[string]*fileState{}
 	get := func(p string) *fileState {
 		if files[p] == nil {
@@ -94,7 +95,7 @@ func main() {
 				if !filepath.IsAbs(src) {
 					src = filepath.Join(*root, src)
 				}
-				replace[filepath.Join(*repo, f[1])] = src
+				override[filepath.Join(*repo, f[1])] = src
 			case "import", "chan", "hookfn":
 				ms, err := filepath.Glob(filepath.Join(*repo, f[1]))
 				if err != nil || len(ms) == 0 {
@@ -136,11 +137,12 @@ func main() {
 	}
 	n := 0
 	for p, st := range files {
-		if _, dup := replace[p]; dup {
-			continue
+		srcPath := p
+		if o, ok := override[p]; ok {
+			srcPath = o
 		}
 		fset := token.NewFileSet()
-		f, err := parser.ParseFile(fset, p, nil, parser.ParseComments)
+		f, err := parser.ParseFile(fset, srcPath, nil, parser.ParseComments)
 		if err != nil {
 			die("parse %s: %v", p, err)
 		}
@@ -183,6 +185,11 @@ func main() {
 			die("%v", err)
 		}
 		replace[p] = dst
+	}
+	for p, o := range override {
+		if _, done := replace[p]; !done {
+			replace[p] = o
+		}
 	}
 	b, _ := json.MarshalIndent(map[string]any{"Replace": replace}, "", " ")
 	if err := os.WriteFile(filepath.Join(*out, "overlay.json"), b, 0o644); err != nil {
